@@ -602,13 +602,81 @@ def live_source_history(seed, res):
     res.states += 1
 
 
+def interleaved_history(seed, res):
+    """Writes interleaved with edits made in other ways (the sections' own setters, a poke into the storage the public
+    accessor hands out): a write changes exactly its range of the cart AS IT IS NOW - nothing an earlier write put
+    somewhere comes back. All ordered pairs of 12 boundary writes around one edit of each kind, on one Game and on two."""
+    pat0 = fill(seed, 0)
+    wr = [(0x1ffe, 0x2002), (0x2ffe, 0x3002), (0x30ff, 0x3101), (0x31fe, 0x3202), (0x0, 0x1), (0x42ff, 0x4300),
+          (0x2000, 0x3000), (0x3000, 0x3100), (0x10, 0x20), (0x3100, 0x3200), (0x2ff0, 0x3120), (0x0, 0x4300)]
+
+    def edits(g, model, which):
+        if which == 'map.set_cell':
+            g.map.set_cell(127, 31, 0x77)
+            model[0x2fff] = 0x77
+            g.map.set_cell(0, 0, 0x66)
+            model[0x2000] = 0x66
+        elif which == 'gff.poke':
+            g.gff.to_bytes()[0] = 0x55
+            model[0x3000] = 0x55
+            g.gff.to_bytes()[255] = 0x54
+            model[0x30ff] = 0x54
+        elif which == 'music.poke':
+            g.music.to_bytes()[0] = 0x33
+            model[0x3100] = 0x33
+            g.music.to_bytes()[255] = 0x32
+            model[0x31ff] = 0x32
+        elif which == 'gfx+sfx.poke':
+            g.gfx.to_bytes()[0x1fff] = 0x11
+            model[0x1fff] = 0x11
+            g.gfx.to_bytes()[0x15] = 0x12
+            model[0x15] = 0x12
+            g.sfx.to_bytes()[0] = 0x13
+            model[0x3200] = 0x13
+            g.sfx.to_bytes()[0x10ff] = 0x14
+            model[0x42ff] = 0x14
+    for which in ('map.set_cell', 'gff.poke', 'music.poke', 'gfx+sfx.poke'):
+        for two_games in (False, True):
+            for i, (s1, e1) in enumerate(wr):
+                for j, (s2, e2) in enumerate(wr):
+                    g = make_game(pat0)
+                    model = bytearray(pat0[:TOTAL])
+                    g2 = make_game(fill(seed, 2)) if two_games else g
+                    model2 = bytearray(fill(seed, 2)[:TOTAL]) if two_games else model
+                    res.evaluations += 1
+                    res.transitions += 3
+                    res.nontriv(('interleaved', which, two_games, i, j))
+                    case = {'interleaved': True, 'seed': seed}
+                    sig = 'C18|interleaved|%s|%s|first=%s..%s|second=%s..%s' % (which, 'two-carts' if two_games else 'one-cart', rel(s1), rel(e1), rel(s2), rel(e2))
+                    try:
+                        d1 = fill(seed, 4)[s1:e1]
+                        g.write_cart_data(d1, s1)
+                        model[s1:e1] = d1
+                        edits(g, model, which)
+                        d2 = fill(seed, 5)[s2:e2]
+                        g2.write_cart_data(d2, s2)
+                        model2[s2:e2] = d2
+                    except Exception as e:
+                        res.violation(sig + '|raise|' + type(e).__name__, 'write / %s / write raised %r' % (which, e), case)
+                        continue
+                    if image(g) != bytes(model) or image(g2) != bytes(model2):
+                        img = image(g) if image(g) != bytes(model) else image(g2)
+                        mdl = model if image(g) != bytes(model) else model2
+                        a = next((k for k in range(min(len(img), len(mdl))) if img[k] != mdl[k]), min(len(img), len(mdl)))
+                        res.violation(sig, 'write [%#x,%#x); %s; write [%#x,%#x)%s: the cart differs from the model at %#x (%s the second write\'s range)' % (
+                            s1, e1, which, s2, e2, ' on another cart' if two_games else '', a, 'inside' if s2 <= a < e2 else 'OUTSIDE'), case)
+                        continue
+                    res.outcome(('interleaved', which, two_games))
+    res.states += 1
+
+
 def region_of(a):
     return next((n for n, lo, hi in REGIONS if lo <= a < hi), 'none')
 
 
 def shards(tier, seed):
     depth, deltas = plan(tier)
-    return [(tier, seed, init, i) for init in (0, 1) for i in range(len(WRITES[deltas[0]]))] + [('replace', seed), ('alias', seed), ('loaded', seed), ('twins', seed), ('oddsize', seed), ('live', seed)] + [('sweep', seed, k) for k in range(SWEEP_PARTS)]
+    return [(tier, seed, init, i) for init in (0, 1) for i in range(len(WRITES[deltas[0]]))] + [('replace', seed), ('alias', seed), ('loaded', seed), ('twins', seed), ('oddsize', seed), ('live', seed), ('interleaved', seed)] + [('sweep', seed, k) for k in range(SWEEP_PARTS)]
 
 
 def run_shard(item):
@@ -622,6 +690,11 @@ def run_shard(item):
         address_sweep(item[1], item[2], res)
         if item[2] == 0:
             res.sample({'history': 'a 1-byte write at every address 0..0x42ff (8 stripes), 5-byte writes at every 3rd, 600-byte writes at every 257th'})
+        return res
+    if item[0] == 'interleaved':
+        res = ShardResult()
+        interleaved_history(item[1], res)
+        res.sample({'history': 'write 4 bytes at 0x2ffe; map.set_cell(127,31,0x77); write 1 byte at 0x0'})
         return res
     if item[0] == 'live':
         res = ShardResult()
@@ -664,6 +737,9 @@ def replay(case):
     if 'replace' in case:
         replace_history(0, res)
         return [(s, v[0]) for s, v in res.violations.items()]
+    if 'interleaved' in case:
+        interleaved_history(case.get('seed', 0), res)
+        return [(s_, v[0]) for s_, v in res.violations.items()]
     if 'live_source' in case:
         live_source_history(case.get('seed', 0), res)
         return [(s_, v[0]) for s_, v in res.violations.items()]
